@@ -52,7 +52,18 @@ def _gen_history(ctx, kind: str):
         return [[(c if const else _dyadic(rng, 2, -4, 4)) for _ in range(n)] for n in sizes]
     if kind == "constant":
         c = rng.choice([0.0, 1.0, -2.5, 0.1, 1e3])
-        return [[c] * rng.choice([1, 2, 3, 5]) for _ in range(rng.randint(2, 6))]
+        return [[c] * rng.choice([1, 2, 3, 4, 6]) for _ in range(rng.randint(2, 6))]
+    if kind == "zero-mean":
+        # running mean exactly 0 (symmetric dyadic batches), all-zero batches, then anything
+        out = []
+        for _ in range(rng.randint(2, 5)):
+            if rng.random() < 0.3:
+                out.append([0.0] * rng.choice([1, 2, 4]))
+            else:
+                xs = [_dyadic(rng, 2, 0, 4) for _ in range(rng.choice([1, 2, 3]))]
+                out.append(xs + [-x for x in xs])
+        out.append([_dyadic(rng, 2, -4, 4) for _ in range(rng.choice([2, 4, 6]))])
+        return out
     if kind == "size1":
         return [[rng.uniform(-5, 5)] for _ in range(rng.randint(2, 8))]
     nb = rng.randint(1, 10)
@@ -60,7 +71,7 @@ def _gen_history(ctx, kind: str):
     off = rng.choice([0.0, 0.0, 10.0, -100.0])
     out = []
     for _ in range(nb):
-        n = rng.choice([1, 1, 2, 3, 4, 7, 16, 33])
+        n = rng.choice([1, 1, 2, 3, 4, 6, 7, 12, 16, 33])
         if rng.random() < 0.15:
             v = rng.uniform(-3, 3) * scale + off
             out.append([v] * n)
@@ -73,15 +84,33 @@ def check_scaler(ctx):
     from rl4co.models.rl.common.utils import RewardScaler
 
     n_hist = ctx.budget(160, 2500)
-    kinds = ["exact", "generic", "generic", "constant", "size1"]
+    kinds = ["exact", "generic", "generic", "constant", "size1", "zero-mean"]
+
+    def shaped(t):
+        """the shapes the real callers pass: [B] (REINFORCE), [B, S] (POMO / multi-start), occasionally 0-d and [B,S,A]"""
+        n = t.numel()
+        r = ctx.rng.random()
+        if n == 1 and r < 0.4:
+            return t.reshape(())
+        divs = [d for d in (2, 3, 4) if n % d == 0 and n > d]
+        if divs and r < 0.5:
+            d = ctx.rng.choice(divs)
+            m = n // d
+            if m % 2 == 0 and m > 2 and ctx.rng.random() < 0.25:
+                return t.reshape(d, 2, m // 2)
+            return t.reshape(d, m) if ctx.rng.random() < 0.7 else t.reshape(m, d)
+        return t
+
     for h in range(n_hist):
         kind = kinds[h % len(kinds)]
         mode = ctx.rng.choice(["norm", "scale", "norm", "scale", "off", "int"])
         dtype = torch.float32 if (kind == "exact" or ctx.rng.random() < 0.7) else torch.float64
         hist = _gen_history(ctx, kind)
         # the values the code really sees
-        tens = [torch.tensor(b, dtype=dtype) for b in hist]
-        hist_q = [[fr(v) for v in t.tolist()] for t in tens]
+        tens = [shaped(torch.tensor(b, dtype=dtype)) for b in hist]
+        hist_q = [[fr(v) for v in t.reshape(-1).tolist()] for t in tens]
+        for t in tens:
+            ctx.count(f"scaler.score-rank.{t.dim()}")
         ctx.count(f"scaler.kind.{kind}")
         ctx.count(f"scaler.mode.{mode}")
         ctx.count(f"scaler.batches.{min(len(hist), 8)}")
@@ -91,10 +120,18 @@ def check_scaler(ctx):
         sc = RewardScaler(scale_arg)
         # --- real code: successive __call__s, statistics read after each ------------------------------
         outs, stats = [], []
-        for t in tens:
-            o = sc(t.clone())
-            outs.append(o)
-            stats.append((int(sc.count), float(sc.mean), float(sc.M2)))
+        try:
+            for t in tens:
+                o = sc(t.clone())
+                outs.append(o)
+                stats.append((int(sc.count), float(sc.mean), float(sc.M2)))
+        except Exception as e:
+            ctx.case(("scaler-raises", h), nontrivial=True)
+            ctx.violation("scaler-statistics", f"RewardScaler({scale_arg!r}) raises {type(e).__name__} on a score tensor of shape "
+                          f"{list(tens[len(outs)].shape)} (every shape the trainers pass must be observed entry by entry)",
+                          {"history": hist, "shapes": [list(t.shape) for t in tens], "mode": mode, "dtype": str(dtype),
+                           "error": str(e)[:200]})
+            continue
         # --- model: statistics -----------------------------------------------------------------------
         line = f"train.welford {len(hist_q)} " + " ".join(f"{len(b)} " + " ".join(fs(v) for v in b) for b in hist_q)
         rep = parse_fields(ctx.driver.ask(line))
@@ -102,7 +139,7 @@ def check_scaler(ctx):
         m_mean, m_M2, m_var = plist(rep["mean"]), plist(rep["M2"]), plist(rep["var"])
         s_mean, s_ssq, s_var = plist(rep["smean"]), plist(rep["ssq"]), plist(rep["svar"])
         ctx.case(("scaler", h, kind, mode, len(hist)), nontrivial=sum(len(b) for b in hist) > 1)
-        wit = {"history": hist, "mode": mode, "dtype": str(dtype)}
+        wit = {"history": hist, "shapes": [list(t.shape) for t in tens], "mode": mode, "dtype": str(dtype)}
         # the model equals the spec exactly (this is `welford_exact`, re-evaluated on this history)
         if m_mean != s_mean or m_M2 != s_ssq or m_var != s_var:
             ctx.disagreement("welford model ≠ spec (theorem welford_exact contradicted?)", wit)
@@ -113,16 +150,20 @@ def check_scaler(ctx):
                 ctx.disagreement("RewardScaler updated its statistics although scaling is off/int", wit)
             for t, o in zip(tens, outs):
                 exp = t if mode == "off" else t / scale_arg
-                if not torch.equal(o, exp):
+                if o.shape != t.shape or not torch.equal(o, exp):
                     ctx.violation("scaler-output", "RewardScaler(off/int) output is not the stated transformation", wit)
             continue
+        ctx.sample({"unit": "train", "what": "RewardScaler history", "mode": mode, "batch_shapes": [list(t.shape) for t in tens][:4],
+                    "first_batch": hist[0][:4], "real_count_mean_M2_after_last_batch": list(stats[-1]),
+                    "model_count_mean_M2_after_last_batch": [m_count[-1], float(m_mean[-1]), float(m_M2[-1])]}, cap=1)
         scale_mag = max([abs(float(v)) for b in hist for v in b] + [1e-30])
         exact = kind == "exact"
         ok = True
         for t_idx, (c, mu, m2) in enumerate(stats):
             N = m_count[t_idx]
             if c != N:
-                ctx.disagreement("count", {**wit, "at": t_idx, "code": c, "model": N})
+                ctx.violation("scaler-statistics", "RewardScaler.count is not the number of values observed so far",
+                              {**wit, "at": t_idx, "code": c, "reference": N})
                 ok = False
                 break
             if exact:
@@ -171,7 +212,10 @@ def check_scaler(ctx):
             if not exact and (err_in / fac > 1e-3 or rel_fac > 1e-3):
                 ctx.count("scaler.output-skipped-degenerate-variance")
                 continue
-            for x_code, x_mod in zip(o.tolist(), mo):
+            if o.shape != tens[t_idx].shape:
+                ctx.violation("scaler-output", "RewardScaler output does not have the shape of its input", {**wit, "at": t_idx})
+                break
+            for x_code, x_mod in zip(o.reshape(-1).tolist(), mo):
                 tol = 1e-6 * (1 + abs(float(x_mod))) + 2 * err_in / fac + rel_fac * abs(float(x_mod))
                 if not (abs(x_code - float(x_mod)) <= tol):
                     ctx.violation("scaler-output", f"RewardScaler('{mode}') output differs from the stated transformation",
@@ -191,16 +235,47 @@ def check_ema(ctx):
     n_hist = ctx.budget(120, 2000)
     for h in range(n_hist):
         rng = ctx.rng
-        exact = h % 3 == 0
-        if exact:
+        kind = ["exact", "generic", "zero", "generic", "constant-mean", "zero"][h % 6]
+        exact = kind != "generic"
+        default_beta = rng.random() < 0.2  # ExponentialBaseline() with its default beta
+        if kind == "exact":
             beta = rng.choice([0.5, 0.75, 0.25, 0.0, 1.0, 0.875])
             hist = [[_dyadic(rng, 3) for _ in range(rng.choice([1, 2, 4, 8]))] for _ in range(rng.randint(1, 8))]
+        elif kind == "zero":
+            # histories in which the moving average is exactly 0.0 at some step, then moves away again
+            beta = rng.choice([0.5, 0.5, 0.75, 0.25, 0.0])
+            pat = rng.choice(["zeros-first", "zero-mean-first", "lands-on-zero", "zero-in-the-middle"])
+            tail = [[_dyadic(rng, 2, 1, 5) * rng.choice([1, -1]) for _ in range(rng.choice([1, 2, 4]))] for _ in range(rng.randint(2, 4))]
+            if pat == "zeros-first":
+                hist = [[0.0] * rng.choice([1, 2, 4]) for _ in range(rng.randint(1, 3))] + tail
+            elif pat == "zero-mean-first":
+                x = _dyadic(rng, 2, 1, 4)
+                hist = [[x, -x]] + ([[2 * x, -x, -x, 0.0]] if rng.random() < 0.5 else []) + tail
+            elif pat == "lands-on-zero":
+                # v1 = m, v2 = beta*m + (1-beta)*m2 = 0  ⇔  m2 = -beta*m/(1-beta)   (dyadic for these betas)
+                m = _dyadic(rng, 1, 1, 4)
+                beta = rng.choice([0.5, 0.75])
+                m2 = -beta * m / (1 - beta)
+                hist = [[m, m], [m2]] + tail
+            else:
+                m = _dyadic(rng, 2, 1, 4)
+                hist = [[m]] + [[0.0, 0.0]] * 1 + tail if beta == 0.0 else [[0.0], [m, -m]] + tail
+            ctx.count(f"ema.zero-pattern.{pat}")
+        elif kind == "constant-mean":
+            beta = rng.choice([0.5, 0.8, 0.25])
+            m = _dyadic(rng, 2)
+            hist = [[m] * rng.choice([1, 2, 3]) for _ in range(rng.randint(2, 6))]
         else:
             beta = rng.choice([0.8, 0.8, 0.9, 0.99, 0.3, 0.0])
             hist = [[rng.gauss(-5, 2) for _ in range(rng.choice([1, 2, 3, 5, 16]))] for _ in range(rng.randint(1, 12))]
+        if default_beta:
+            beta = 0.8
         use_mean_cls = beta == 0.0 and rng.random() < 0.5
-        bl = MeanBaseline() if use_mean_cls else ExponentialBaseline(beta=beta)
-        ctx.count("ema.exact" if exact else "ema.generic")
+        bl = MeanBaseline() if use_mean_cls else (ExponentialBaseline() if default_beta else ExponentialBaseline(beta=beta))
+        beta = bl.beta
+        ctx.count(f"ema.kind.{kind}")
+        if default_beta:
+            ctx.count("ema.default-constructed")
         ctx.count(f"ema.beta.{beta}")
         if use_mean_cls:
             ctx.count("ema.MeanBaseline")
@@ -210,6 +285,9 @@ def check_ema(ctx):
             t = torch.tensor(b, dtype=torch.float32)
             if shape2d and len(b) % 2 == 0:
                 t = t.reshape(2, -1)
+            elif len(b) == 1 and rng.random() < 0.3:
+                t = t.reshape(())
+            ctx.count(f"ema.reward-rank.{t.dim()}")
             tens.append(t)
         vs = []
         for t in tens:
@@ -224,6 +302,10 @@ def check_ema(ctx):
         mv, closed, rec = plist(rep["v"]), plist(rep["closed"]), plist(rep["rec"])
         ctx.case(("ema", h, beta, len(hist)), nontrivial=len(hist) > 1)
         wit = {"beta": beta, "history": hist}
+        if any(v == 0 for v in mv[:-1]):
+            ctx.count("ema.history-with-moving-average-exactly-0")
+        ctx.sample({"unit": "train", "what": "ExponentialBaseline history", "beta": beta, "batches": hist[:4],
+                    "real_v": vs[:4], "model_v": [float(x) for x in mv[:4]]}, cap=2)
         if mv != rec or mv != closed or any(d != 0 for d in plist(rep["d"])):
             ctx.disagreement("EMA model ≠ recurrence / closed form (theorems contradicted?)", wit)
             continue
@@ -271,19 +353,34 @@ def check_warmup(ctx):
 
         inner.eval = counted
         inner.epoch_callback = lambda *a, **k: None  # the wrapped baseline's own callback is not under test here
-        wb = WarmupBaseline(inner, n_epochs=n, warmup_exp_beta=beta)
+        if rng.random() < 0.2:
+            wb = WarmupBaseline(inner)  # defaults: n_epochs = 1, warmup_exp_beta = 0.8
+            n, beta = wb.n_epochs, wb.warmup_baseline.beta
+            ctx.count("warmup.default-constructed")
+        else:
+            wb = WarmupBaseline(inner, n_epochs=n, warmup_exp_beta=beta)
+        zero_rewards = rng.random() < 0.35  # warm-up moving average exactly 0 while alpha < 1
         ctx.count(f"warmup.n.{n if n <= 10 else '>10'}")
         ctx.count(f"warmup.inner.{inner_kind}")
         events, toks = [], []
         inner_v = None  # inner EMA state as the harness tracks it
-        E = 200
-        eval_epochs = set(rng.sample(range(E), 12)) | {0, 1, n - 1, n, n + 1} if n < E else set(rng.sample(range(E), 14)) | {0, 1}
+        E = max(200, n + 6)  # always more epochs than the warm-up horizon
+        eval_epochs = set(rng.sample(range(E), 12)) | {0, 1, 2, n - 1, n, n + 1, n + 2}
         code_alpha, code_evals = [], []
 
         def do_eval():
             nonlocal inner_v
             B = rng.choice([1, 2, 3, 4])
-            R = torch.tensor([rng.gauss(-4, 1) for _ in range(B)], dtype=torch.float64)
+            if zero_rewards and len(code_evals) < 3:
+                half = [_dyadic(rng, 2, 0, 3) for _ in range(max(1, B // 2))]
+                vals = (half + [-x for x in half]) if rng.random() < 0.6 else [0.0] * (2 * len(half))
+                B = len(vals)
+                R = torch.tensor(vals, dtype=torch.float64)
+            else:
+                R = torch.tensor([rng.gauss(-4, 1) for _ in range(B)], dtype=torch.float64)
+            if B % 2 == 0 and rng.random() < 0.3 and inner_kind != "rollout":
+                R = R.reshape(2, B // 2)  # multi-start shaped rewards
+            ctx.count(f"warmup.reward-rank.{R.dim()}")
             blv = torch.tensor([rng.gauss(-4, 1) for _ in range(B)], dtype=torch.float64)
             td = TensorDict({"bl": blv}, batch_size=[B])
             before = calls["inner"]
@@ -317,7 +414,10 @@ def check_warmup(ctx):
         rep = parse_fields(ctx.driver.ask(line))
         mev = rep["events"].split("|")
         ctx.case(("warmup", h, n, inner_kind), nontrivial=True)
-        wit = {"n_epochs": n, "beta": beta, "inner": inner_kind}
+        wit = {"n_epochs": n, "beta": beta, "inner": inner_kind, "epochs": E, "zero_mean_rewards_first": zero_rewards}
+        ctx.sample({"unit": "train", "what": "WarmupBaseline history", "n_epochs": n, "beta": beta, "inner": inner_kind,
+                    "epochs_of_callbacks": E, "real_alpha_after_epochs_0..4": code_alpha[:5],
+                    "model_events_head": mev[:4]}, cap=3)
         ia = ie = 0
         for kind, m in zip(events, mev):
             f = m.split(":")
@@ -457,6 +557,9 @@ class _BlTok:
         self.ctx = ctx
         self.bl = baseline
         self.caps = {}
+        # warm-up weight the REFERENCE expects (min(1,(e+1)/n) after the callback of epoch e); when set, the model is
+        # fed with it instead of the real object's alpha, so a wrong schedule shows up in the baseline value and the loss
+        self.expected_alpha = {}
         self._install(baseline)
 
     def _install(self, bl):
@@ -490,7 +593,8 @@ class _BlTok:
             return "given " + ten_tokens(extra) + " 0 0"
         if isinstance(bl, WarmupBaseline):
             a = fr(bl.alpha if snap is None else snap["alpha"])
-            inner_evaluated = a != 0
+            inner_evaluated = a != 0  # what the real object did
+            a = self.expected_alpha.get(id(bl), a)
             itok = self.tokens(bl.baseline, snap["inner"], dirn, td, env, False, None) if inner_evaluated else "no"
             return (f"warmup {fs(a)} {bl.n_epochs} {fs(fr(bl.warmup_baseline.beta))} {_optrat(snap['wv'])} " + itok)
         if isinstance(bl, NoBaseline):
@@ -543,7 +647,79 @@ def _judge_reference(ctx, tag, what, model_vd, spec_vd, code_loss, code_dd, dbl,
     return True
 
 
-def _reinforce_step(ctx, tag, model, env, batch, dirn, pcap, bltok, dbl, wit, flat_pomo=None, sc_tok="off"):
+class _ScalerTrack:
+    """The advantage scaler inside `calculate_loss`: its coefficients for a step follow from the C20 model fed with
+    every advantage observed so far (the advantages themselves come from the loss model with scaling off)."""
+
+    def __init__(self, mode, dbl):
+        self.mode, self.dbl, self.hist = mode, dbl, []
+
+    def token(self, ctx, mk_line):
+        """returns the `scale` token for this step, or None when the step is outside the theorems (N < 2) or
+        numerically degenerate"""
+        if self.mode is None:
+            return "off"
+        if isinstance(self.mode, int):
+            return f"div {self.mode}"
+        rep0 = parse_fields(ctx.driver.ask(mk_line("off")))
+        if "error" in rep0:
+            return "off"
+        self.hist.append(plist(rep0["adv"]))
+        line = f"train.welford {len(self.hist)} " + " ".join(f"{len(b)} " + " ".join(fs(v) for v in b) for b in self.hist)
+        rep = parse_fields(ctx.driver.ask(line))
+        N = int(rep["count"].split(",")[-1])
+        if N < 2:
+            return None
+        mean, var = plist(rep["mean"])[-1], plist(rep["var"])[-1]
+        eps = F32_EPS if not self.dbl else Fraction(1, 1 << 52)
+        std = fr(float(torch.tensor(float(var), dtype=torch.float32).sqrt()))  # the code takes the root in float32
+        fac = std + eps
+        if float(fac) < 1e-4:
+            return None
+        return f"norm {fs(mean)} {fs(fac)}" if self.mode == "norm" else f"div {fs(fac)}"
+
+
+def _judge_step(ctx, tag, loss, code_dd, R, ll, dll, bl_val, rtok, ltok, btok, scaler, dbl, wit):
+    """The real loss / θ·grad / baseline value of one `calculate_loss` against the model and the reference."""
+    def mk_line(sc):
+        return f"train.reinforce {sc} {rtok} {ltok} {btok}"
+
+    sc_tok = scaler.token(ctx, mk_line) if scaler is not None else "off"
+    if sc_tok is None:
+        ctx.count("c16.scaler-step-outside-theorems(N<2 or zero variance)")
+        ctx.count("c16.scaler-n1-loss-nan" if bool(torch.isnan(loss)) else "c16.scaler-degenerate-loss-finite")
+        return {}
+    rep = parse_fields(ctx.driver.ask(mk_line(sc_tok)))
+    if "error" in rep:
+        ctx.disagreement(f"{tag}: model raises a shape error where the code does not", {**wit, "reply": rep})
+        return rep
+    if R.requires_grad or (torch.is_tensor(bl_val) and bl_val.requires_grad):
+        ctx.violation("grad-through-reward-or-baseline", f"{tag}: reward / baseline value carries gradient",
+                      {**wit, "reward": R.requires_grad, "bl_val": bool(torch.is_tensor(bl_val) and bl_val.requires_grad)})
+    if rep["advgrad"] != "0" or rep["blgrad"] != "0":
+        ctx.disagreement(f"{tag}: model advantage carries a derivative", wit)
+    shape, bvals, _ = pten(rep["blval"])
+    cb = bl_val if torch.is_tensor(bl_val) else torch.tensor(float(bl_val), dtype=torch.float64)
+    rt_v, rt_d = _tol(dbl)
+    if list(cb.shape) != shape or not all(close(a, b, rt_v) for a, b in zip(cb.reshape(-1).tolist(), bvals)):
+        ctx.disagreement(f"{tag}: baseline value", {**wit, "code_shape": list(cb.shape), "model_shape": shape,
+                                                    "code": cb.reshape(-1).tolist()[:6], "model": [float(x) for x in bvals[:6]]})
+    scale_d = sum(abs(d) for d in dll) / max(1, len(dll)) * (float(R.abs().max()) + 1)
+    if sc_tok != "off":
+        scale_d *= 10
+    okay = _compare_loss(ctx, tag, rep, float(loss), code_dd, dbl, wit, scale_d)
+    if rep["advshape"] != rep["rewardshape"]:
+        ctx.violation("advantage-broadcast", f"{tag}: advantage shape {rep['advshape']} ≠ reward shape {rep['rewardshape']}", wit)
+    if rep.get("spec", "na") != "na":
+        _judge_reference(ctx, tag, "−mean((R−b)·ll) + bl_loss recomputed per sample", pdual(rep["loss"]), pdual(rep["spec"]),
+                         float(loss), code_dd, dbl, wit, scale_d, okay)
+        ctx.count("c16.reference-evaluated")
+    else:
+        ctx.count("c16.reference-na")
+    return rep
+
+
+def _reinforce_step(ctx, tag, model, env, batch, dirn, pcap, bltok, dbl, wit, flat_pomo=None, scaler=None):
     """One real `shared_step(batch, 0, 'train')`, its loss and θ·grad, against the model and the reference."""
     pcap.clear()
     snap = bltok.snapshot()
@@ -551,7 +727,7 @@ def _reinforce_step(ctx, tag, model, env, batch, dirn, pcap, bltok, dbl, wit, fl
     loss = res["loss"]
     out = pcap.calls[0][2]  # the policy output dict, updated in place by calculate_loss
     R, ll = out["reward"], out["log_likelihood"]
-    code_dd = dirn.dd(loss)
+    code_dd = dirn.dd(loss) if not bool(torch.isnan(loss)) else float("nan")
     dll = dirn.dd_each(ll)
     has_extra = "extra" in batch.keys()
     td0 = env.reset(batch.clone())
@@ -562,38 +738,27 @@ def _reinforce_step(ctx, tag, model, env, batch, dirn, pcap, bltok, dbl, wit, fl
     else:
         rtok, ltok = ten_tokens(R), ten_tokens(ll, dll)
     btok = bltok.tokens(model.baseline, snap, dirn, td0, env, has_extra, batch["extra"] if has_extra else None)
-    line = f"train.reinforce {sc_tok} {rtok} {ltok} {btok}"
-    rep = parse_fields(ctx.driver.ask(line))
-    if "error" in rep:
-        ctx.disagreement(f"{tag}: model raises a shape error where the code does not", {**wit, "reply": rep})
-        return loss, out, rep
-    # requires_grad of reward / baseline value (property clause: they carry no gradient)
-    bl_val = out["bl_val"]
-    if R.requires_grad or (torch.is_tensor(bl_val) and bl_val.requires_grad):
-        ctx.violation("grad-through-reward-or-baseline", f"{tag}: reward / baseline value carries gradient",
-                      {**wit, "reward": R.requires_grad, "bl_val": bool(torch.is_tensor(bl_val) and bl_val.requires_grad)})
-    if rep["advgrad"] != "0" or rep["blgrad"] != "0":
-        ctx.disagreement(f"{tag}: model advantage carries a derivative", wit)
-    # baseline value
-    shape, bvals, _ = pten(rep["blval"])
-    cb = bl_val if torch.is_tensor(bl_val) else torch.tensor(float(bl_val), dtype=torch.float64)
-    rt_v, rt_d = _tol(dbl)
-    if list(cb.shape) != shape or not all(close(a, b, rt_v) for a, b in zip(cb.reshape(-1).tolist(), bvals)):
-        ctx.disagreement(f"{tag}: baseline value", {**wit, "code_shape": list(cb.shape), "model_shape": shape,
-                                                    "code": cb.reshape(-1).tolist()[:6], "model": [float(x) for x in bvals[:6]]})
-    scale_d = sum(abs(d) for d in dll) / max(1, len(dll)) * (float(R.abs().max()) + 1)
-    okay = _compare_loss(ctx, tag, rep, float(loss), code_dd, dbl, wit, scale_d)
-    # the advantage must have the reward's shape (no B×B broadcast)
-    if rep["advshape"] != rep["rewardshape"]:
-        ctx.violation("advantage-broadcast", f"{tag}: advantage shape {rep['advshape']} ≠ reward shape {rep['rewardshape']}", wit)
-    # reference surrogate (per sample, no shapes) vs the real loss / gradient
-    if rep.get("spec", "na") != "na":
-        _judge_reference(ctx, tag, "−mean((R−b)·ll) + bl_loss recomputed per sample", pdual(rep["loss"]), pdual(rep["spec"]),
-                         float(loss), code_dd, dbl, wit, scale_d, okay)
-        ctx.count("c16.reference-evaluated")
-    else:
-        ctx.count("c16.reference-na")
+    rep = _judge_step(ctx, tag, loss, code_dd, R, ll, dll, out["bl_val"], rtok, ltok, btok, scaler, dbl, wit)
     return loss, out, rep
+
+
+def _expected_alpha(n: int, e: int) -> float:
+    """the warm-up weight after the callback of epoch e (epochs called in order): min(1, (e+1)/n), as the double the
+    code would hold"""
+    return 1.0 if e + 1 >= n else (e + 1) / float(n)
+
+
+def _after_callback(ctx, tag, bltok, wb, epoch, wit):
+    """compare the real warm-up weight with the reference schedule and make the model follow the reference"""
+    exp = _expected_alpha(wb.n_epochs, epoch)
+    bltok.expected_alpha[id(wb)] = fr(exp)
+    ctx.count(f"c16.warmup-alpha-after-cb.{'0<a<1' if 0 < exp < 1 else exp}")
+    if epoch + 1 > wb.n_epochs:
+        ctx.count("c16.warmup.callback-beyond-n_epochs")
+    if float(wb.alpha) != exp:
+        ctx.violation("warmup-alpha", f"{tag}: WarmupBaseline.alpha after the callback of epoch {epoch} is {wb.alpha}, "
+                      f"the schedule min(1,(e+1)/n) gives {exp}", {**wit, "epoch": epoch, "n_epochs": wb.n_epochs,
+                                                                   "code": float(wb.alpha), "reference": exp})
 
 
 def check_reinforce(ctx):
@@ -604,7 +769,7 @@ def check_reinforce(ctx):
 
     n_cases = ctx.budget(26, 300)
     kinds = ["no", "exponential", "mean", "critic", "rollout_only", "warmup-rollout", "warmup-critic",
-             "warmup-exponential", "extra", "exponential-scaled", "critic-scaled", "no-intscale"]
+             "warmup-exponential", "extra", "exponential-scaled", "critic-scaled", "no-intscale", "default"]
     for c in range(n_cases):
         kind = kinds[c % len(kinds)]
         gen = _seed_torch(ctx)
@@ -630,6 +795,8 @@ def check_reinforce(ctx):
             model = REINFORCE(env, policy, baseline=WarmupBaseline(CriticBaseline(_mk_critic(policy, dbl)), n_epochs=n_ep, warmup_exp_beta=0.5))
         elif base == "warmup-exponential":
             model = REINFORCE(env, policy, baseline=WarmupBaseline(ExponentialBaseline(beta=0.5), n_epochs=n_ep))
+        elif base == "default":  # every option left at its default: warm-up(1 epoch, beta 0.8) around the greedy rollout
+            model = REINFORCE(env, policy)
         else:  # extra
             model = REINFORCE(env, policy, baseline="exponential")
         model.log_dict = _noop
@@ -642,10 +809,12 @@ def check_reinforce(ctx):
         pcap = Capture(policy)
         bltok = _BlTok(ctx, model.baseline, None)
         steps = ctx.rng.choice([3, 4])
+        if isinstance(model.baseline, WarmupBaseline):
+            steps = model.baseline.n_epochs + 3  # training goes on after the warm-up horizon
+        scaler = _ScalerTrack(reward_scale, dbl)
         ctx.count(f"c16.reinforce.{kind}")
         ctx.count(f"c16.dtype.{'f64' if dbl else 'f32'}")
         ctx.count(f"c16.B.{B}")
-        sc_state = None
         for t in range(steps):
             # one "epoch" of the trainer's flow: fresh dataset → baseline.wrap_dataset (adds `extra` for the greedy
             # rollout baseline once alpha > 0) → DataLoader with the dataset's collate_fn → batch
@@ -669,23 +838,17 @@ def check_reinforce(ctx):
                 ctx.count("c16.reinforce.with-extra(synthetic)")
             wit = {"case": c, "kind": kind, "step": t, "B": B, "dtype": "f64" if dbl else "f32", "reward_scale": reward_scale}
             tag = f"REINFORCE[{kind}]"
-            # the advantage scaler's coefficients for this step come from the C20 model fed with the advantages seen so far
-            sc_tok = "off"
-            if reward_scale is not None:
-                sc_tok, sc_state = _scaler_tokens(ctx, model, reward_scale, sc_state, env, batch, policy, pcap, bltok, dirn, dbl)
-                if sc_tok is None:
-                    ctx.count("c16.scaler-step-skipped")
-                    continue
-            loss, out, rep = _reinforce_step(ctx, tag, model, env, batch, dirn, pcap, bltok, dbl, wit, sc_tok=sc_tok)
+            loss, out, rep = _reinforce_step(ctx, tag, model, env, batch, dirn, pcap, bltok, dbl, wit, scaler=scaler)
             ctx.case(("reinforce", c, t, kind), nontrivial=B > 1)
             if "state" in rep:
                 _check_state(ctx, tag, model.baseline, rep["state"], dbl, wit)
             ctx.sample({"unit": "train", "what": tag, "B": B, "loss": float(loss), "model": rep.get("loss")}, cap=2)
-            dirn.sgd_step(loss, lr=0.05)
+            if not bool(torch.isnan(loss)):
+                dirn.sgd_step(loss, lr=0.05)
             # epoch callbacks between steps for the warm-up baselines (alpha moves 0 → 1)
             if isinstance(model.baseline, WarmupBaseline):
                 model.baseline.epoch_callback(policy, env=env, batch_size=4, device="cpu", epoch=t, dataset_size=8)
-                ctx.count(f"c16.warmup-alpha-after-cb.{'0<a<1' if 0 < model.baseline.alpha < 1 else model.baseline.alpha}")
+                _after_callback(ctx, tag, bltok, model.baseline, t, wit)
             elif isinstance(model.baseline, RolloutBaseline):
                 model.baseline.epoch_callback(policy, env, batch_size=4, device="cpu", epoch=t, dataset_size=8)
         pcap.remove()
@@ -706,52 +869,132 @@ def _check_state(ctx, tag, bl, state: str, dbl, wit):
             ctx.disagreement(f"{tag}: warm-up moving-average state after the step", {**wit, "code": None if wv is None else float(wv), "model": f[2]})
 
 
-def _scaler_tokens(ctx, model, reward_scale, sc_state, env, batch, policy, pcap, bltok, dirn, dbl):
-    """The scaler is applied inside `calculate_loss`; its coefficients depend on the advantages of this very
-    step.  They are obtained from the C20 model: the harness tracks the history of advantage batches the
-    real scaler has seen (read back from the real module after the step is not possible before it), so the
-    step is run on a deep copy first to learn this step's advantages."""
-    import copy
+def check_calc_loss(ctx):
+    """`REINFORCE.calculate_loss(td, batch, policy_out, reward, log_likelihood)` called directly on hand-made rollouts:
+    rewards with exact special values (all zero, zero mean, equal, positive and negative), shapes [B], [B,S] and 0-d,
+    every baseline that needs no network, every scaling mode, options left at their defaults, and histories longer
+    than the warm-up horizon with an epoch callback after every step.  The log-likelihood is a leaf tensor, so
+    θ = ll and θ·grad = Σ ∂loss/∂ll_i · v_i along a random direction v."""
+    from rl4co.models.rl import REINFORCE
+    from rl4co.models.rl.reinforce.baselines import (ExponentialBaseline, MeanBaseline, NoBaseline, SharedBaseline,
+                                                      WarmupBaseline)
 
-    if isinstance(reward_scale, int):
-        return f"div {reward_scale}", sc_state
-    hist = sc_state or []
-    # dry run on a copy (same RNG state → same sampled actions) to obtain this step's unscaled advantages
-    rng_state = torch.get_rng_state()
-    pcap.remove()
-    m2 = copy.deepcopy(model)
-    m2.log_dict = _noop
-    cap2 = Capture(m2.policy)
-    m2.advantage_scaler.scale = None
-    m2.shared_step(batch.clone(), 0, "train")
-    o2 = cap2.calls[0][2]
-    bv = o2["bl_val"]
-    adv = (o2["reward"] - bv).detach().reshape(-1)
-    cap2.remove()
-    torch.set_rng_state(rng_state)
-    pcap.__init__(policy)
-    bltok.__init__(ctx, model.baseline, None)
-    hist = hist + [[fr(v) for v in adv.tolist()]]
-    line = f"train.welford {len(hist)} " + " ".join(f"{len(b)} " + " ".join(fs(v) for v in b) for b in hist)
-    rep = parse_fields(ctx.driver.ask(line))
-    N = int(rep["count"].split(",")[-1])
-    if N < 2:
-        # N = 1: NaN loss on the real code (probed in C20); run the real step to keep the histories aligned
-        res = model.shared_step(batch, 0, "train")
-        ctx.count("c16.scaler-n1-loss-nan" if bool(torch.isnan(res["loss"])) else "c16.scaler-n1-loss-finite")
-        pcap.clear()
-        return None, hist
-    mean = plist(rep["mean"])[-1]
-    var = plist(rep["var"])[-1]
-    eps = F32_EPS if not dbl else Fraction(1, 1 << 52)
-    # the code computes the square root in float32 (`.float().sqrt()`)
-    std = fr(float(torch.tensor(float(var), dtype=torch.float32).sqrt()))
-    fac = std + eps
-    if float(fac) < 1e-4:
-        res = model.shared_step(batch, 0, "train")
-        pcap.clear()
-        return None, hist
-    return (f"norm {fs(mean)} {fs(fac)}" if reward_scale == "norm" else f"div {fs(fac)}"), hist
+    env = _mk_env(4, False)
+    policy = tiny_policy("am", "tsp", False)  # never evaluated here
+    n_cases = ctx.budget(48, 600)
+    kinds = ["exponential-default", "exponential", "mean", "no", "shared", "warmup-default", "warmup-ema-inner",
+             "warmup-no-inner", "extra", "warmup-shared-inner"]
+    patterns = ["zeros-first", "zero-mean-first", "lands-on-zero", "generic", "generic", "constant", "mixed-sign"]
+    for c in range(n_cases):
+        rng = ctx.rng
+        gen = _seed_torch(ctx)
+        kind = kinds[c % len(kinds)]
+        pattern = patterns[(c // len(kinds) + c) % len(patterns)]
+        reward_scale = rng.choice([None, None, None, "norm", "scale", 3])
+        dbl = rng.random() < 0.8
+        dtype = torch.float64 if dbl else torch.float32
+        beta = rng.choice([0.5, 0.75, 0.25])
+        n_ep = rng.choice([1, 2, 3, 4])
+        if kind == "exponential-default":
+            bl = ExponentialBaseline()
+        elif kind == "exponential":
+            bl = ExponentialBaseline(beta=beta)
+        elif kind == "mean":
+            bl = MeanBaseline()
+        elif kind == "no":
+            bl = NoBaseline()
+        elif kind == "shared":
+            bl = SharedBaseline()
+        elif kind == "warmup-default":
+            bl = WarmupBaseline(ExponentialBaseline(beta=0.25))
+        elif kind == "warmup-ema-inner":
+            bl = WarmupBaseline(ExponentialBaseline(beta=0.25), n_epochs=n_ep, warmup_exp_beta=beta)
+        elif kind == "warmup-no-inner":
+            bl = WarmupBaseline(NoBaseline(), n_epochs=n_ep, warmup_exp_beta=beta)
+        elif kind == "warmup-shared-inner":
+            bl = WarmupBaseline(SharedBaseline(), n_epochs=n_ep, warmup_exp_beta=beta)
+        else:
+            bl = ExponentialBaseline()
+        model = REINFORCE(env, policy, baseline=bl, reward_scale=reward_scale)
+        model.log_dict = _noop
+        bltok = _BlTok(ctx, model.baseline, None)
+        scaler = _ScalerTrack(reward_scale, dbl)
+        two_d = kind in ("shared", "warmup-shared-inner") or rng.random() < 0.35
+        B = rng.choice([1, 2, 3, 4])
+        S = rng.choice([2, 3, 4])
+        if two_d and B == S and rng.random() < 0.5:
+            S += 1
+        zero_d = (not two_d) and kind in ("no", "exponential", "exponential-default") and rng.random() < 0.15
+        epochs = (model.baseline.n_epochs + 3) if isinstance(model.baseline, WarmupBaseline) else rng.choice([3, 4, 5])
+        ctx.count(f"c16.calc.{kind}")
+        ctx.count(f"c16.calc.pattern.{pattern}")
+        ctx.count(f"c16.calc.scale.{reward_scale}")
+        ctx.count("c16.calc.reward-rank." + ("0" if zero_d else "2" if two_d else "1"))
+        m0 = _dyadic(rng, 1, 1, 4)
+        for e in range(epochs):
+            n = 1 if zero_d else (B * S if two_d else B)
+            # rewards of this step
+            if pattern == "zeros-first" and e < 2:
+                vals = [0.0] * n
+            elif pattern == "zero-mean-first" and e < 2 and n >= 2:
+                half = [_dyadic(rng, 2, 1, 4) for _ in range(n // 2)]
+                vals = half + [-x for x in half] + [0.0] * (n - 2 * (n // 2))
+            elif pattern == "lands-on-zero" and e < 2:
+                # batch means m0 then -beta*m0/(1-beta): a moving average with weight beta is exactly 0 after the second step
+                bb = getattr(model.baseline, "beta", None) or getattr(getattr(model.baseline, "warmup_baseline", None), "beta", 0.5)
+                vals = [m0] * n if e == 0 else [-bb * m0 / (1 - bb)] * n
+            elif pattern == "constant":
+                vals = [m0] * n
+            elif pattern == "mixed-sign":
+                vals = [_dyadic(rng, 2, -4, 4) for _ in range(n)]
+            else:
+                vals = [rng.gauss(-4, 1.5) for _ in range(n)]
+            R = torch.tensor(vals, dtype=dtype)
+            llv = torch.tensor([-abs(rng.gauss(3, 1)) for _ in range(n)], dtype=dtype)
+            v = torch.randn(n, generator=gen, dtype=torch.float64)
+            if zero_d:
+                R, llv = R.reshape(()), llv.reshape(())
+            elif two_d:
+                R, llv = R.reshape(B, S), llv.reshape(B, S)
+            ll = llv.clone().requires_grad_(True)
+            batch = {}
+            if kind == "extra":
+                batch = {"extra": torch.tensor([rng.gauss(-3, 1) for _ in range(B)], dtype=dtype)}
+                if two_d:
+                    batch["extra"] = batch["extra"].reshape(B, 1)
+            snap = bltok.snapshot()
+            wit = {"case": c, "kind": kind, "epoch": e, "reward": R.tolist(), "shape": list(R.shape), "pattern": pattern,
+                   "reward_scale": reward_scale, "dtype": "f64" if dbl else "f32"}
+            tag = f"calculate_loss[{kind}]"
+            try:
+                out = model.calculate_loss(None, batch, {}, R, ll)
+            except Exception as ex:
+                ctx.case(("calc-raises", c, e), nontrivial=True)
+                ctx.violation("loss-raises", f"{tag}: calculate_loss raises {type(ex).__name__} on a legal rollout "
+                              f"(reward shape {list(R.shape)}, reward_scale={reward_scale!r})", {**wit, "error": str(ex)[:200]})
+                break
+            loss = out["loss"]
+            if bool(torch.isnan(loss)):
+                code_dd = float("nan")
+            else:
+                (g,) = torch.autograd.grad(loss, ll, retain_graph=False, allow_unused=True)
+                code_dd = 0.0 if g is None else float((g.double().reshape(-1) * v).sum())
+            dll = v.tolist()
+            btok = bltok.tokens(model.baseline, snap, None, None, env, "extra" in batch, batch.get("extra"))
+            rep = _judge_step(ctx, tag, loss, code_dd, R, ll, dll, out["bl_val"], ten_tokens(R), ten_tokens(llv, dll), btok,
+                              scaler, dbl, wit)
+            ctx.case(("calc", c, e, kind, pattern), nontrivial=n > 1)
+            if "state" in rep:
+                _check_state(ctx, tag, model.baseline, rep["state"], dbl, wit)
+                st = rep["state"]
+                if st.startswith("ema:") and Fraction(st[4:]) == 0 or (st.startswith("warm:") and st.split(":")[2] == "0"):
+                    ctx.count("c16.calc.moving-average-exactly-0")
+            ctx.sample({"unit": "train", "what": tag, "reward": R.tolist(), "code_loss": float(loss), "code_theta_grad": code_dd,
+                        "model_loss;deriv": rep.get("loss")}, cap=3)
+            # end of epoch
+            model.baseline.epoch_callback(policy, env=env, batch_size=4, device="cpu", epoch=e, dataset_size=8)
+            if isinstance(model.baseline, WarmupBaseline):
+                _after_callback(ctx, tag, bltok, model.baseline, e, wit)
 
 
 def _tour_len(locs_row, actions_row) -> float:
@@ -773,8 +1016,11 @@ def check_pomo(ctx):
         policy = tiny_policy("am", "tsp", dbl)
         S = ctx.rng.choice([None, 2, 3, nloc])
         B = ctx.rng.choice([1, 2, 3, 4])
-        model = POMO(env, policy, num_starts=S)
+        reward_scale = ctx.rng.choice([None, None, "norm", "scale", 2])
+        model = POMO(env, policy, num_starts=S, reward_scale=reward_scale) if reward_scale is not None else POMO(env, policy, num_starts=S)
         model.log_dict = _noop
+        scaler = _ScalerTrack(reward_scale, dbl)
+        ctx.count(f"c16.pomo.reward_scale.{reward_scale}")
         S_eff = nloc if S is None else S
         dirn = Direction(list(policy.parameters()), gen)
         pcap = Capture(policy)
@@ -782,10 +1028,11 @@ def check_pomo(ctx):
         ctx.count(f"c16.pomo.S.{S_eff}")
         ctx.count(f"c16.pomo.B.{B}")
         ctx.count("c16.pomo.S=B" if S_eff == B else "c16.pomo.S≠B")
-        for t in range(2):
+        for t in range(3):
             batch = gen_batch(env, B, dbl)
-            wit = {"case": c, "step": t, "B": B, "S": S_eff, "dtype": "f64" if dbl else "f32"}
-            loss, out, rep = _reinforce_step(ctx, "POMO", model, env, batch, dirn, pcap, bltok, dbl, wit, flat_pomo=S_eff)
+            wit = {"case": c, "step": t, "B": B, "S": S_eff, "dtype": "f64" if dbl else "f32", "reward_scale": reward_scale}
+            loss, out, rep = _reinforce_step(ctx, "POMO", model, env, batch, dirn, pcap, bltok, dbl, wit, flat_pomo=S_eff,
+                                             scaler=scaler)
             ctx.case(("pomo", c, t), nontrivial=True)
             # layout premise of the reference (k = s·B + b): start node and instance of every flat rollout
             acts, R = out["actions"], out["reward"]
@@ -849,8 +1096,15 @@ def check_ppo(ctx):
         norm_adv = ctx.rng.random() < 0.4
         mbs = ctx.rng.choice([0.5, 1.0, 2, 3, B])
         vf, ent = ctx.rng.choice([0.5, 1.0]), ctx.rng.choice([0.0, 0.01, 0.1])
-        model = PPO(env, policy, critic=critic, clip_range=clip, ppo_epochs=ctx.rng.choice([2, 3]), mini_batch_size=mbs,
-                    vf_lambda=vf, entropy_lambda=ent, normalize_adv=norm_adv)
+        if c % 4 == 0:
+            # every option left at its default (clip 0.2, 2 inner epochs, mini-batches of a quarter, vf 0.5, no entropy bonus)
+            model = PPO(env, policy, critic=critic)
+            B = 8
+            clip, vf, ent, norm_adv = (model.ppo_cfg[k] for k in ("clip_range", "vf_lambda", "entropy_lambda", "normalize_adv"))
+            ctx.count("c16.ppo.default-options")
+        else:
+            model = PPO(env, policy, critic=critic, clip_range=clip, ppo_epochs=ctx.rng.choice([2, 3]), mini_batch_size=mbs,
+                        vf_lambda=vf, entropy_lambda=ent, normalize_adv=norm_adv)
         model.log_dict = _noop
         params = list(policy.parameters()) + list(critic.parameters())
         dirn = Direction(params, gen)
@@ -948,7 +1202,12 @@ def check_symnco(ctx, only=None):
         S, A = combos[c % len(combos)]
         B = ctx.rng.choice([1, 2, 3])
         alpha, beta = ctx.rng.choice([0.2, 0.0, 0.5]), ctx.rng.choice([1, 1, 0.5, 2])
-        model = SymNCO(env, policy, num_augment=A, num_starts=S, alpha=alpha, beta=beta)
+        if only is None and c % 7 == 1:
+            model = SymNCO(env, policy)  # defaults: 4 augmentations, no multi-start, alpha 0.2, beta 1
+            S, A, alpha, beta = model.num_starts, model.num_augment, model.alpha, model.beta
+            ctx.count("c16.symnco.default-options")
+        else:
+            model = SymNCO(env, policy, num_augment=A, num_starts=S, alpha=alpha, beta=beta)
         model.log_dict = _noop
         dirn = Direction(list(policy.parameters()), gen)
         pcap = Capture(policy)
@@ -1037,6 +1296,7 @@ def check_symnco(ctx, only=None):
 
 
 def run_c16(ctx):
+    check_calc_loss(ctx)
     check_reinforce(ctx)
     check_pomo(ctx)
     check_a2c(ctx)
@@ -1095,6 +1355,10 @@ def replay_c16(ctx, witness):
 register(Unit("C16", "train", run_c16, drivers=["drv_train"], lean_modules=C16_MODULES, theorems=C16_THEOREMS,
               replay=replay_c16,
               assumptions=[C16_NOTE,
+                           "besides the real policies, `REINFORCE.calculate_loss` is also driven directly with hand-made rollouts "
+                           "(leaf log-likelihood tensor, rewards with exact special values, shapes [B] / [B,S] / 0-d, every scaling mode, "
+                           "default-constructed baselines, epochs beyond the warm-up horizon); the warm-up weight fed to the model is "
+                           "the reference schedule min(1,(e+1)/n), not the real object's alpha",
                            "SymNCO reference: flat layout k = (s·A + a)·B + b (verified on every run from start nodes, augmented "
                            "instances and tour lengths); the loss is accepted if it equals the reference under either reading of "
                            "the regrouped axes (model.py labels / losses.py docstrings)"]))
